@@ -472,7 +472,13 @@ def prop_nodes(case, r):
     prob = ctrl.MS[0].levels[0].prob
     u0 = prob.dtype_u(prob.init)
     u0[:] = np.resize(np.array(case['u0'], dtype=float), u0.shape)
-    uend_s, stats_s = ctrl.run(u0=u0, t0=0.0, Tend=Tend)
+    try:
+        uend_s, stats_s = ctrl.run(u0=u0, t0=0.0, Tend=Tend)
+    except ZeroDivisionError:
+        if case['residual_type'].endswith('rel'):
+            r.discard('relative residual undefined: a step start value is exactly zero')
+            return
+        raise
     ser = summarize([stats_s])
     world = MPI.World(M, decisions=case['decisions'], seed=case['seed'], policy=case['policy'], max_ops=op_budget(stats_s, M, case.get('levels', 1)))
 
